@@ -170,9 +170,8 @@ def run(ctx):
             for i, v in enumerate(seq):
                 rle.add(v)
                 tr.append(dict(op='add', v=v))
-                # queries interleaved between the adds: every longest sequence in the quick bound, every 8th one in the
-                # thorough bound (46 656 sequences of 6: all of them with ~180 events each is more than TLC can load)
-                if n == maxlen and i < n - 1 and (ctx.quick or sum((j + 1) * v for j, v in enumerate(seq)) % 8 == 0):
+                # queries interleaved between the adds of every longest sequence (validated in shards)
+                if n == maxlen and i < n - 1:
                     tr += _queries(rle, seq[:i + 1])
             tr += _queries(rle, seq)
             traces.append(tr)
